@@ -63,6 +63,9 @@ def _set_strategy(runs=True):
                     t = t                  # same start, (probably) different end
                 else:
                     t = t + draw(st.integers(1, 3 * gen.SEC))
+            if draw(st.integers(0, 3)) == 0:
+                # caption lists need not be chronological
+                cues = draw(st.permutations(cues))
             langs.append({"code": ["en", "fr", "de"][li], "layout": None, "cues": cues})
         return {"langs": langs, "styles": {}, "layout": None}
     return build()
